@@ -849,7 +849,8 @@ static void caseC10(long long k, Rng& g)
       std::vector<int> re((size_t)n, 0), ce((size_t)n, 0);
       if(fam == "badly-scaled")
       {
-         int Emax = g.pick(std::vector<int>({3, 8, 16, 30}));
+         // all entries stay >= 2^-34 ~ 6e-11, well above the absolute zero tolerance epsilon = 1e-16 below which SoPlex drops input entries
+         int Emax = g.pick(std::vector<int>({3, 8, 15}));
          for(int i = 0; i < n; i++)
          {
             re[(size_t)i] = g.range(-Emax, Emax);
@@ -985,8 +986,12 @@ static void caseC10(long long k, Rng& g)
       RhsV ent;
       setQ(ent, n, E.actualCol(r, a0));
       bool repr = true;
-      for(auto& v : ent.q) if(!isDouble(v)) repr = false;
-      if(!repr) continue;
+      for(auto& v : ent.q) if(!isDouble(v) || (v != 0 && qabs(v) < qd(1e-11))) repr = false;
+      if(!repr)
+      {
+         S.count("c10.update.column_not_representable_skipped");
+         continue;
+      }
       // exact B^-1 a on the old matrix: the pivot element must be well away from the zero tolerance (ratio test guarantees this in the simplex)
       std::vector<Q> alpha = E.solve(ent.q, false);
       if(qabs(alpha[(size_t)r]) < qd(1e-9) || qabs(alpha[(size_t)r]) < qd(1e-7) * vinf(alpha))
@@ -1005,6 +1010,20 @@ static void caseC10(long long k, Rng& g)
       runVariant(C, g, uv, &ent, &x, true);
       S.count(std::string("c10.update.via.") + VARNAME[uv] + "." + ut);
       DSVectorBase<double> newcol = toSV(ent);
+      // precondition of the update (assert in CLUFactor::update; guaranteed by the ratio test in the simplex): usable computed pivot element
+      if(!(std::fabs(x[r]) > 1e-12) || (x.isSetup() && x.pos(r) < 0))
+      {
+         S.count("c10.update.computed_pivot_unusable_skipped");
+         continue;
+      }
+      if(verbose)
+      {
+         fprintf(stderr, "step %d: about to replace column %d via %s: exact pivot %.17g computed %.17g, x setup %d size %d, |alpha|=%.3g\n  x:", step, r, VARNAME[uv], dq(alpha[(size_t)r]), x[r], (int)x.isSetup(), x.isSetup() ? x.size() : -1, dq(vinf(alpha)));
+         for(int i = 0; i < n; i++) fprintf(stderr, " %.6g(%.6g)", x[i], dq(alpha[(size_t)i]));
+         fprintf(stderr, "\n  entering column:");
+         for(int i = 0; i < n; i++) fprintf(stderr, " %.6g", ent.d[(size_t)i]);
+         fprintf(stderr, "\n");
+      }
       int stc = -1;
       bool threw = false;
       std::string what;
@@ -1345,6 +1364,7 @@ static void caseC11(long long k, Rng& g)
    }
    // ---- solves: every public overload of SLUFactorRational::solveRight / solveLeft (+ the 4update right solves without update)
    int rounds = n <= 16 ? 2 : 1;
+   std::vector<Q> keep1, keep2, keep3, kx1, kx2, kx3;
    for(int round = 0; round < rounds; round++)
    {
       for(int left = 0; left < 2; left++)
@@ -1412,32 +1432,53 @@ static void caseC11(long long k, Rng& g)
                exactCmp(C, valsOfR(xs), x3, "solveRight4update");
                idxCmpR(C, xs, "solveRight4update");
             }
+            if(round == 0)
             {
-               SSVectorRational xs(n), d(n);
-               VectorRational y(n);
-               DSVectorRational s1 = toSVR(b1);
-               fillSSR(d, b2);
-               F.solve2right4update(xs, y, s1, d);
-               exactCmp(C, valsOfR(xs), x1, "solve2right4update.x");
-               idxCmpR(C, xs, "solve2right4update.x");
-               exactCmp(C, valsOfR(y), x2, "solve2right4update.y");
-            }
-            {
-               SSVectorRational xs(n), d(n), e(n);
-               VectorRational y(n), z(n);
-               DSVectorRational s1 = toSVR(b2);
-               fillSSR(d, b3);
-               fillSSR(e, b1);
-               F.solve3right4update(xs, y, z, s1, d, e);
-               exactCmp(C, valsOfR(xs), x2, "solve3right4update.x");
-               idxCmpR(C, xs, "solve3right4update.x");
-               exactCmp(C, valsOfR(y), x3, "solve3right4update.y");
-               exactCmp(C, valsOfR(z), x1, "solve3right4update.z");
+               keep1 = b1;
+               keep2 = b2;
+               keep3 = b3;
+               kx1 = x1;
+               kx2 = x2;
+               kx3 = x3;
             }
          }
       }
    }
    if(k < 6) S.sample(Json().str("family", fam).num("n", n).str("utype", ut).num("max_entry_bits", (long long)maxbits).boolean("regular", regular).done());
+   // The two- and three-right-hand-side *4update* right solves of SLUFactorRational (no caller inside SoPlex).  They overrun their index
+   // arrays (see known_findings.d/C11.json), so they are exercised last, in every 4th case, and only in the ASan build where the overrun
+   // is reported at the faulting store instead of corrupting the heap of the harness.
+#if defined(__SANITIZE_ADDRESS__)
+   if(k % 4 == 1 && !keep1.empty())
+   {
+      const std::vector<Q>& b1 = keep1, &b2 = keep2, &b3 = keep3, &x1 = kx1, &x2 = kx2, &x3 = kx3;
+      S.count("c11.multi_rhs_4update_cases");
+            {
+      SSVectorRational xs(n), d(n);
+      VectorRational y(n);
+      DSVectorRational s1 = toSVR(b1);
+      fillSSR(d, b2);
+      F.solve2right4update(xs, y, s1, d);
+      exactCmp(C, valsOfR(xs), x1, "solve2right4update.x");
+      idxCmpR(C, xs, "solve2right4update.x");
+      exactCmp(C, valsOfR(y), x2, "solve2right4update.y");
+   }
+   {
+      SSVectorRational xs(n), d(n), e(n);
+      VectorRational y(n), z(n);
+      DSVectorRational s1 = toSVR(b2);
+      fillSSR(d, b3);
+      fillSSR(e, b1);
+      F.solve3right4update(xs, y, z, s1, d, e);
+      exactCmp(C, valsOfR(xs), x2, "solve3right4update.x");
+      idxCmpR(C, xs, "solve3right4update.x");
+      exactCmp(C, valsOfR(y), x3, "solve3right4update.y");
+      exactCmp(C, valsOfR(z), x1, "solve3right4update.z");
+   }
+   }
+#else
+   S.count("c11.multi_rhs_4update_skipped_non_asan");
+#endif
    S.end(k);
 }
 
